@@ -115,7 +115,7 @@ func (C18Mon) After(w *core.World, st *core.Step) {
 	c := w.C
 	c.Oracle("C18.panic")
 	if crashed, how := st.Res.Crashed(); crashed {
-		sym := "panic"
+		sym := panicClass(firstPanicLine(st))
 		w.Fail("C18.panic", sym, crashTrigger(st), "%s crashed (%s): %s", st.String(), how, clipS(firstPanicLine(st), 300))
 	}
 	c.Oracle("C18.exit-code")
@@ -134,6 +134,26 @@ func (C18Mon) After(w *core.World, st *core.Step) {
 			w.Fail("C18.refused-changed", "state-changed", st.Cmd()+":"+why, "%s was constructed as invalid (%s), was refused, but changed %v", st.String(), why, firstN(d, 6))
 		}
 	}
+}
+
+func panicClass(line string) string {
+	switch {
+	case strings.Contains(line, "nil pointer dereference"):
+		return "panic:nil-deref"
+	case strings.Contains(line, "index out of range"):
+		return "panic:index-out-of-range"
+	case strings.Contains(line, "slice bounds out of range"):
+		return "panic:slice-bounds"
+	case strings.Contains(line, "regexp:"):
+		return "panic:regexp-compile"
+	case strings.Contains(line, "nil map"):
+		return "panic:nil-map"
+	case strings.HasPrefix(line, "fatal error:"):
+		return "fatal"
+	case line == "":
+		return "signal"
+	}
+	return "panic:other"
 }
 
 func firstPanicLine(st *core.Step) string {
